@@ -162,3 +162,110 @@ def stmts_after(block, node):
         if any(n is node for n in walk(s)) or s is node:
             return items[i + 1:]
     return []
+
+
+# ---------------------------------------------------------------- helper inlining
+
+
+def _deep_offset(x, off, path):
+    """deep copy of a callee tree with HirIds shifted (so that they cannot collide with the caller's) and its `return`s
+    marked as returns of the inlined helper"""
+    if isinstance(x, dict):
+        out = {}
+        for k, v in x.items():
+            if k == "hid" and isinstance(v, int):
+                out[k] = v + off
+            else:
+                out[k] = _deep_offset(v, off, path)
+        if out.get("e") == "ret":
+            out["e"] = "ret_inl"
+            out["inl"] = path
+        return out
+    if isinstance(x, list):
+        return [_deep_offset(v, off, path) for v in x]
+    return x
+
+
+def inline_helpers(unit, body, keep=(), prefixes=None, max_depth=2, only_if=None):
+    """HIR of `body` with calls of local helper functions expanded in place.
+
+    A call / method call whose callee is a function of this crate with a serialised body, that is not in `keep`, not the
+    function itself, and whose path starts with one of `prefixes` (default: the impl / module of `body`), is replaced by
+
+        { let <param_0> = <arg_0>; ...; <callee body> }            (node key "inl" = callee path)
+
+    so that syntactic rules see through an extracted helper. `keep` lists the anchors the rule itself looks for."""
+    import copy
+    if prefixes is None:
+        prefixes = (body.path.rsplit("::", 1)[0] + "::",)
+    keep = set(keep)
+    counter = [0]
+
+    def expand(node, depth, stack):
+        if isinstance(node, list):
+            return [expand(v, depth, stack) for v in node]
+        if not isinstance(node, dict):
+            return node
+        out = {k: expand(v, depth, stack) for k, v in node.items()}
+        if out.get("e") not in ("call", "mcall") or depth >= max_depth:
+            return out
+        if out["e"] == "mcall":
+            callee = out.get("def") or ""
+            args = [out["recv"]] + list(out["args"])
+        else:
+            f = strip(out["f"])
+            callee = f.get("path") or "" if f.get("e") == "path" else ""
+            args = list(out["args"])
+        cb = unit.body(callee) if callee else None
+        if cb is None or not cb.hir or callee in keep or callee in stack or callee == body.path or not callee.startswith(tuple(prefixes)) or cb.kind == "closure":
+            return out
+        if only_if is not None and not only_if(cb):
+            return out
+        params = cb.hir.get("params") or []
+        if len(params) != len(args):
+            return out
+        counter[0] += 1
+        off = 100000 * counter[0]
+        stmts = []
+        for p, a in zip(params, args):
+            p2 = _deep_offset(p, off, callee)
+            a0 = strip(a)
+            if p2.get("p") == "bind" and p2.get("name") == "self" and a0.get("e") == "path" and a0.get("local") == "self":
+                continue
+            stmts.append({"e": "let", "pat": p2, "init": a, "ln": out.get("ln"), "inl_param": True})
+        inner = expand(_deep_offset(cb.hir["body"], off, callee), depth + 1, stack | {callee})
+        return {"e": "block", "unsafe": False, "ln": out.get("ln"), "stmts": stmts, "tail": inner, "inl": callee, "ty": out.get("ty")}
+
+    return expand(copy.deepcopy(body.hir["body"]), 0, frozenset())
+
+
+def derived_hids(root, seeds):
+    """HirIds of bindings whose value derives from the bindings in `seeds` through `let` initialisers (to a fixed point)"""
+    d = set(seeds)
+    lets = [n for n in walk(root) if n["e"] == "let" and n.get("init") is not None]
+    changed = True
+    while changed:
+        changed = False
+        for n in lets:
+            hs = [q.get("hid") for q in walk_pats(n["pat"]) if q.get("p") == "bind" and "hid" in q]
+            if not hs or all(h in d for h in hs):
+                continue
+            if any(m["e"] == "path" and m.get("hid") in d for m in walk(n["init"])):
+                d.update(hs)
+                changed = True
+    return d
+
+
+def path_hid(e):
+    """HirId of the local an expression names, looking through & and * and clones"""
+    e = strip(e)
+    while isinstance(e, dict):
+        if e.get("e") in ("addr", "unary"):
+            e = strip(e["a"])
+        elif e.get("e") == "mcall" and e.get("name") in ("clone", "as_slice", "as_ref", "to_vec", "iter") and not e.get("args"):
+            e = strip(e["recv"])
+        else:
+            break
+    if isinstance(e, dict) and e.get("e") == "path" and "hid" in e:
+        return e["hid"]
+    return None
